@@ -170,7 +170,7 @@ Section A.
 
   Lemma wrap_inv3 : forall c d ok i ancs m m',
     wrap_loop_f d ok i ancs m = Some m' -> forallb (inv3 c) m = true ->
-    (forall lt disc body, nth_error m i = Some (NLoop lt disc body) ->
+    (forall lt disc body, is_loop_dir d = true -> nth_error m i = Some (NLoop lt disc body) ->
         ok lt disc (NLoop lt disc body) = true -> cov incs (NLoop lt disc body) = true ->
         (negb sc || negb (disc && existsb has_incr body)) = true ->
         ltype_eqb lt LCells = true -> existsb has_incr body = false) ->
@@ -185,8 +185,9 @@ Section A.
     apply andb_true_iff in Hs. destruct Hs as [Hs _]. apply andb_true_iff in Hs. destruct Hs as [_ Hcov].
     cbn in Hn. apply andb_true_iff in Hn. destruct Hn as [Hc Hb].
     unfold chkA in Hc. apply andb_true_iff in Hc. destruct Hc as [_ Hwf].
-    specialize (Hok lt disc body eq_refl Eok Hcov Hwf).
     cbn. unfold clA in *. rewrite Hb. unfold chkA, cdA. rewrite Hwf.
+    destruct (is_loop_dir d) eqn:Ed; [|reflexivity].
+    specialize (Hok lt disc body eq_refl eq_refl Eok Hcov Hwf).
     destruct (ltype_eqb lt LCells).
     - rewrite (Hok eq_refl). rewrite !andb_false_r. reflexivity.
     - rewrite !andb_false_r. reflexivity.
@@ -228,13 +229,14 @@ Section A.
     apply (cov_has_inc (NLoop LCells disc body) Hcov). exact Hok.
   Qed.
 
-  Lemma accloop_sound : forall da lt disc body,
-    accloop_ok incs lt (NLoop lt disc body) da = true -> cov incs (NLoop lt disc body) = true ->
+  Lemma accloop_sound : forall da col2 lt disc body,
+    accloop_ok incs lt (NLoop lt disc body) da false col2 = true -> cov incs (NLoop lt disc body) = true ->
     (match da with DaTrue | DaCaught => existsb has_incr body = false | _ => True end) ->
     ltype_eqb lt LCells = true -> existsb has_incr body = false.
   Proof.
-    intros da lt disc body Hok Hcov Hda Hlt. unfold accloop_ok in Hok.
+    intros da col2 lt disc body Hok Hcov Hda Hlt. unfold accloop_ok in Hok.
     destruct lt; try discriminate. cbn in Hok.
+    apply andb_true_iff in Hok. destruct Hok as [_ Hok].
     destruct da; try exact Hda; try discriminate.
     cbn in Hok. apply negb_true_iff in Hok.
     apply (cov_has_inc (NLoop LCells disc body) Hcov). exact Hok.
@@ -260,18 +262,18 @@ Section A.
   Proof.
     intros o t t' Hs Hda Ht. unfold step in Hs.
     change false with (ctx clA cdA []) in *.
-    destruct o as [p i|p i|p i|p i da|p i n|p i n]; cbn [op_fun fst snd] in Hs.
+    destruct o as [p i|p i|p i|p i da sq gg vv c2|p i n|p i n]; cbn [op_fun fst snd] in Hs.
     - eapply (upd_ginv chkA (cov incs) clA cdA (colour_f i)); [| |exact Hs|exact Ht].
       + intros ancs m m' H. eapply colour_incr; eauto.
       + intros ancs m m' H Hm. eapply colour_inv3; eauto.
     - eapply (upd_ginv chkA (cov incs) clA cdA); [| |exact Hs|exact Ht].
       + intros ancs m m' H. eapply wrap_incr; eauto.
       + intros ancs m m' H Hm. eapply wrap_inv3; eauto.
-        intros lt disc body _ Hok Hcov Hwf Hlt. eapply ompparloop_sound; eauto.
+        intros lt disc body _ _ Hok Hcov Hwf Hlt. eapply ompparloop_sound; eauto.
     - eapply (upd_ginv chkA (cov incs) clA cdA); [| |exact Hs|exact Ht].
       + intros ancs m m' H. eapply wrap_incr; eauto.
       + intros ancs m m' H Hm. eapply wrap_inv3; eauto.
-        intros lt disc body _ Hok Hcov Hwf Hlt. cbn beta in Hok. eapply omploop_sound; eauto.
+        intros lt disc body _ _ Hok Hcov Hwf Hlt. cbn beta in Hok. eapply omploop_sound; eauto.
     - unfold da_ok in Hda.
       destruct (upd p (da_ok_f da i) [] t) as [x|] eqn:Eg; try discriminate.
       pose proof (upd_both _ _ _ _ _ _ _ Hs Eg) as Hb.
@@ -280,7 +282,8 @@ Section A.
       + intros ancs m m' H Hm. unfold both in H.
         destruct (da_ok_f da i ancs m) as [y|] eqn:Ey; try discriminate.
         eapply wrap_inv3; eauto.
-        intros lt disc body En Hok Hcov Hwf Hlt. cbn beta in Hok.
+        intros lt disc body Ed En Hok Hcov Hwf Hlt. cbn beta in Hok.
+        destruct sq; [discriminate Ed|].
         eapply accloop_sound; eauto. eapply da_guard; eauto.
     - eapply (upd_ginv chkA (cov incs) clA cdA); [| |exact Hs|exact Ht].
       + intros ancs m m' H. eapply region_incr; eauto.
